@@ -274,6 +274,14 @@ def run(prop, tier):
                             "samples": [["the harness process was terminated by the code under test"]], "model_cfg": cfg},
                             ["see notes/gensign.md"], time.time() - t0, len(verdict.violations))
         return rc
+    if died(out, err, summ):
+        # The harness runs cases in parallel goroutines of ONE process; production runs one request per process.  A change
+        # that shares mutable state between handler objects can make the Go runtime kill the process ("concurrent map
+        # writes") - an artefact of the parallel driver.  Re-run everything sequentially and judge that.
+        log("the harness process ended early with parallel workers (rc=%d); re-running the plan sequentially" % rc)
+        plan["workers"] = 1
+        json.dump(plan, open(planp, "w"))
+        rc, out, err, summ = vlib.run_harness(binp, "TestVerifGensign", {"VERIF_PLAN": planp, "VERIF_OUT": outp, "VERIF_TIER": tier, "VERIF_PROGRESS": progp}, timeout=3000)
     if rc != 0 or not summ or summ.get("errors"):
         raise NoVerdict("gensign harness failed (rc=%d):\n%s\n%s" % (rc, out[-3000:], err[-3000:]))
     traces = vlib.split_traces(vlib.read_ndjson(outp))
